@@ -1,8 +1,11 @@
 (* C13/Props.v -- property theorems only.  Every theorem holds for every oracle (the C14 values o_data, the
    spike-subset arrays o_subset, the uuid generator o_uuids under its count/distinctness hypothesis) and every
    correctly-rounded-operation / matrix-inverse oracle of the loader model PV.C04.Model.load. *)
-From Coq Require Import ZArith List Bool String Ascii Lia.
+From Coq Require Import ZArith QArith List Bool String Ascii Lia Permutation.
+(* C09 / C14 first (needed by the composition theorems at the end), C13 last: unqualified names are C13's *)
+From PV Require Import C09.Model C14.Model C14.Spec C14.Proofs6.
 From PV Require Import Base.Tok Base.TokArith C04.Model C13.Model C13.Spec C13.Proofs1 C13.Proofs2 C13.Proofs3 C13.Proofs4.
+From PV Require Import C13.Proofs5 C13.Fast C13.Link.
 Import ListNotations.
 Open Scope string_scope.
 Open Scope list_scope.
@@ -316,3 +319,175 @@ Proof.
   repeat split; try (vm_compute; reflexivity); try congruence; try (cbn; tauto); try (intros y Hy; cbn in Hy; lia);
     try (intros H; exfalso; now apply H).
 Qed.
+
+(* ================= stage 3 ================= *)
+
+(* Totality / error exits: which exit convert() takes is decided by the input alone, in the order of the code -- same
+   directory, sparse templates, no amplitudes, clusters.channels.npy already in the source, no id vectors to compress --
+   for every oracle; inside these five guards it returns a value. *)
+Theorem C13_convert_total : forall o ci,
+  match conv_pre ci with
+  | Some e => convert o ci = CErr e
+  | None => exists r, convert o ci = COk r
+  end.
+Proof. exact convert_total. Qed.
+Print Assumptions C13_convert_total.
+
+(* force: copy_files(force) with _copy_if_possible's "skip when the destination exists and not force" and the squeeze
+   branch transcribed (Proofs5.copy_step).  On a fresh output directory -- holding only what convert() made itself --
+   force = True and force = False write the same directory, the one the model uses. *)
+Theorem C13_force_fresh : forall force o ci,
+  copy_files_f force (add_subset o (ci_has_raw ci) (ci_src ci)) (made o (ci_m ci) (ci_src ci)) = out0_npy o ci.
+Proof. exact force_fresh_thm. Qed.
+Print Assumptions C13_force_fresh.
+
+(* the linear uuid checker the comparator runs on 65536 identifiers is the checker of C13_uuids_checker *)
+Theorem C13_uuids_fast : forall n ids, uuids_fast n ids = uuids_b n ids.
+Proof. exact uuids_fast_eq. Qed.
+Print Assumptions C13_uuids_fast.
+
+(* Composition with C14 (Link.v): C13's value oracle instantiated with C14's exporter.  For every argsort meeting
+   NumPy's contract, every rounding rnd of the exact values, every label / subset / uuid oracle: if x (C14's input)
+   describes the loaded model of ci (Abs) and both models return, then every value file is in the output under its
+   re-labelled name with C13's dtype and shape and exactly C14's values, the number of values is what the shape says,
+   C14's tables have C13's dimensions, and channels.rawInd -- computed by both -- is the same file. *)
+Theorem C13_C14_compose : forall argsort rnd x factor rate subset uuids ci y r,
+  Argsort_ok argsort ->
+  Abs (ci_m ci) x ->
+  export argsort x factor rate = Some y ->
+  convert (link_oracles rnd (a_dt (l_pos (ci_m ci))) y subset uuids) ci = COk r ->
+  (forall n0 d sh, In (n0, d, sh) (value_files (ci_m ci) (ci_src ci)) ->
+     exists a, lookup (relabel (ci_label ci) n0) (co_npy r) = Some a /\
+               a_dt a = d /\ a_shape a = sh /\ a_data a = data_of rnd (a_dt (l_pos (ci_m ci))) y n0 /\ arr_wf a = true) /\
+  (let m := ci_m ci in
+   let N := Z.to_nat in
+   List.length (y_cpeak y) = N (n_clu m) /\ List.length (y_p2t y) = N (n_clu m) /\ List.length (y_camps y) = N (n_clu m) /\
+   List.length (y_cdepths y) = N (n_clu m) /\ List.length (y_samps y) = N (n_spikes m) /\ List.length (y_sdepths y) = N (n_spikes m) /\
+   List.length (y_tamps y) = N (n_templates m) /\
+   Shaped3 (N (n_templates m)) (N (n_wsamples m)) (N (ncw m)) (y_twave y) /\ Shaped2 (N (n_templates m)) (N (ncw m)) (y_tchan y) /\
+   Shaped3 (N (n_clu m)) (N (n_wsamples m)) (N (ncw m)) (y_cwave y) /\ Shaped2 (N (n_clu m)) (N (ncw m)) (y_cchan y)) /\
+  (Forall (fun z => 0 <= z) (x_cmap x) ->
+   lookup (relabel (ci_label ci) "channels.rawInd.npy") (co_npy r) =
+     Some (mkarr DI64 (a_shape (l_probes (ci_m ci))) (map tz (y_rawind y)))).
+Proof.
+  intros argsort rnd x factor rate subset uuids ci y r Hs. apply compose_thm.
+  intros l. destruct (Hs l) as [P _]. now rewrite (Permutation_length P), seq_length.
+Qed.
+Print Assumptions C13_C14_compose.
+
+(* the two transcriptions of make_channel_objects' re-basing loop agree on every non-negative channel map *)
+Theorem C13_C14_rawind : forall probes cmap, Forall (fun z => 0 <= z) cmap ->
+  C13.Model.raw_ind probes cmap = C14.Model.raw_ind probes cmap.
+Proof. exact raw_ind_agree. Qed.
+Print Assumptions C13_C14_rawind.
+
+(* the two developments count the clusters alike: C14's hypothesis on the loaded n_clusters (Loaded_ncl, i.e.
+   C08_merge_map_loaded: curated => max id + 1) plus "n_templates when nothing was curated" is C13's n_clu *)
+Theorem C13_C14_nclu : forall m x,
+  x_st x = ids_of (l_stemplates m) -> x_sc x = ids_of (l_sclusters m) ->
+  ids_ok (l_sclusters m) = true -> ids_ok (l_stemplates m) = true -> l_tcols m = None ->
+  Loaded_ncl x -> (x_sc x = x_st x -> x_ncl x = x_nt x) -> x_nt x = n_templates m ->
+  x_ncl x = n_clu m.
+Proof. exact abs_ncl_loaded. Qed.
+Print Assumptions C13_C14_nclu.
+
+(* ---- non-vacuity of the composition: the curated directory of C13_ex_converts with C14's exporter behind it ---- *)
+Definition ex_x (m : loaded) : alf_in := mk_alf_in
+  [[[1; 2]; [3; 4]]; [[1; 0]; [5; 1]]]                          (* templates.npy of ex_src *)
+  [[[1; 2]; [3; 4]]; [[1; 0]; [5; 1]]; [[1; 0]; [5; 1]]]        (* cluster waveforms of the ids 0, 1, 2 *)
+  [[1; 0]; [0; 1]] [0; 1; 1] [0; 2; 1] [1; 2; 3] 2 3 (ids_of (l_probes m)) [[0; 0]; [0; 20]] (ids_of (l_cmap m)) None 3 12.
+(* exact rendering of a dyadic rational (enough for the example; the theorem holds for every rnd) *)
+Definition ex_rnd (_ : dt) (q : QN) : tok :=
+  match q with
+  | Some v => let r := Qred v in tnorm (TNum (Qnum r) (- Z.log2 (Zpos (Qden r))))
+  | None => TNaN
+  end.
+Definition ex_subset (_ : string) : arr := mkarr DF64 [0] [].
+Definition ex_uuids (n : nat) : list Z := map Z.of_nat (seq 0 n).
+
+Example C13_ex_compose :
+  match load ex_div tmul ex_round (fun a => a) ex_src (TNum 1 1) (Some 2) with
+  | Ok m =>
+      let ci := ex_ci m "probe00" false in
+      Abs m (ex_x m) /\ Forall (fun z => 0 <= z) (x_cmap (ex_x m)) /\ Loaded_ncl (ex_x m) /\ conv_pre ci = None /\
+      match export isort_arg (ex_x m) (Some 1%Q) (Some 2%Q) with
+      | Some y =>
+          match convert (link_oracles ex_rnd (a_dt (l_pos m)) y ex_subset ex_uuids) ci with
+          | COk r =>
+              export_all isort_arg ex_rnd (ex_x m) (Some 1%Q) (Some 2%Q) ex_subset ex_uuids ci = COk r /\
+              lookup "templates.waveforms.probe00.npy" (co_npy r) =
+                Some (mkarr DF32 [2; 2; 2] [TNum 1 0; TNum 1 1; TNum 3 0; TNum 1 2; TNum 5 (-1); TNum 0 0; TNum 25 (-1); TNum 5 (-1)]) /\
+              lookup "clusters.waveformsChannels.probe00.npy" (co_npy r) =
+                Some (mkarr DI32 [3; 2] [TNum 0 0; TNum 1 0; TNum 0 0; TNum 1 0; TNum 0 0; TNum 1 0]) /\
+              lookup "clusters.amps.probe00.npy" (co_npy r) = Some (mkarr DF64 [3] [TNum 1 1; TNum 3 2; TNum 1 3]) /\
+              lookup "clusters.peakToTrough.probe00.npy" (co_npy r) = Some (mkarr DF64 [3] [TNum 125 2; TNum 125 2; TNum 125 2]) /\
+              lookup "spikes.amps.probe00.npy" (co_npy r) = Some (mkarr DF32 [3] [TNum 1 1; TNum 1 3; TNum 3 2]) /\
+              lookup "channels.rawInd.probe00.npy" (co_npy r) = Some (mkarr DI64 [2] (map tz (y_rawind y))) /\
+              forallb (fun kv => arr_wf (snd kv)) (co_npy r) = true
+          | CErr _ => False
+          end
+      | None => False
+      end
+  | Err _ => False
+  end.
+Proof.
+  vm_compute. split; [|split; [repeat constructor; discriminate|split; [reflexivity|repeat split]]].
+  constructor; try reflexivity; repeat constructor.
+Qed.
+
+(* ---- the uint16 boundary, and one step beyond the statement ("ids below 65536") ---- *)
+Definition ex_src_ids (c0 : Z) : files :=
+  map (fun kv => if String.eqb (fst kv) "spike_clusters.npy" then (fst kv, mkarr DI32 [3] [tz c0; TNum 1 1; TNum 1 0]) else kv) ex_src.
+(* no identifiers: ex_o's 65536 uuids (map Z.of_nat on unary numbers) would cost minutes and play no role here *)
+Definition ex_o0 : oracles := mkoracles (fun _ => []) (fun _ => mkarr DF64 [0] []) (fun _ => []).
+Definition ex_reloaded_clusters (c0 : Z) : option (list tok * list tok * Z) :=
+  match load ex_div tmul ex_round (fun a => a) (ex_src_ids c0) (TNum 1 1) (Some 2) with
+  | Ok m =>
+      match convert ex_o0 (mkci m (ex_src_ids c0) [("params.py", 1)] false false "probe00") with
+      | COk r =>
+          match lookup "spikes.clusters.probe00.npy" (co_npy r), load ex_div tmul ex_round (fun a => a) (co_npy r) (TNum 1 1) (Some 2) with
+          | Some a, Ok m2 => Some (a_data a, a_data (l_sclusters m2), n_clu m)
+          | _, _ => None
+          end
+      | CErr _ => None
+      end
+  | Err _ => None
+  end.
+Example C13_ex_u16_boundary :
+  (* 65534 and 65535 are kept by the cast, 65536 and 65537 wrap to 0 and 1, -1 to 65535 *)
+  a_data (to_u16 (mkarr DI64 [5] (map tz [65534; 65535; 65536; 65537; -1]))) = map tz [65534; 65535; 0; 1; 65535] /\
+  id_ok (tz 65535) = true /\ id_ok (tz 65536) = false /\
+  (* cluster id 65535 (the largest id of the statement): 65536 clusters, the id is stored and read back unchanged *)
+  ex_reloaded_clusters 65535 = Some (map tz [65535; 2; 1], map tz [65535; 2; 1], 65536) /\
+  (* cluster id 65536 (outside the statement): 65537 clusters are written, but the spike is stored -- and read back -- as a
+     spike of cluster 0: a silent merge with the source's cluster 0.  Recorded behaviour, not a claim. *)
+  ex_reloaded_clusters 65536 = Some (map tz [0; 2; 1], map tz [0; 2; 1], 65537).
+Proof. vm_compute. repeat split. Qed.
+
+(* ---- sparse template storage (outside "dense-template dataset"): the export raises, nothing is produced ---- *)
+Example C13_ex_sparse :
+  let src := ex_src ++ [("template_ind.npy", mkarr DI32 [2; 2] [TNum 0 0; TNum 1 0; TNum 1 0; TNum 0 0])] in
+  match load ex_div tmul ex_round (fun a => a) src (TNum 1 1) (Some 2) with
+  | Ok m => l_tcols m <> None /\ conv_pre (mkci m src [] false false "") = Some CSparse /\
+            convert ex_o (mkci m src [] false false "") = CErr CSparse
+  | Err _ => False
+  end.
+Proof. vm_compute. repeat split. discriminate. Qed.
+
+(* ---- the exits of C13_convert_total, one input each ---- *)
+Example C13_ex_exits :
+  match load ex_div tmul ex_round (fun a => a) ex_src (TNum 1 1) (Some 2) with
+  | Ok m =>
+      conv_pre (ex_ci m "" true) = Some CRefused /\ conv_pre (ex_ci m "x" false) = None /\
+      conv_pre (mkci m (("clusters.channels.npy", mkarr DI64 [3] [TNum 0 0; TNum 0 0; TNum 0 0]) :: ex_src) [] false false "") = Some CMissing /\
+      conv_pre (mkci m (filter (fun kv => negb (String.eqb (fst kv) "spike_clusters.npy")) ex_src) [] false false "") = Some CStop /\
+      convert ex_o (mkci m (filter (fun kv => negb (String.eqb (fst kv) "spike_clusters.npy")) ex_src) [] false false "") = CErr CStop
+  | Err _ => False
+  end.
+Proof. vm_compute. repeat split. Qed.
+
+(* ---- the fast uuid checker and the printers of Fast.v ---- *)
+Example C13_ex_fast :
+  uuids_fast 4 (zrange 4) = true /\ uuids_fast 4 [0; 1; 1; 2] = false /\ uuids_fast 3 [2; 0; 1] = true /\ uuids_fast 3 (zrange 4) = false /\
+  zrange 4 = [0; 1; 2; 3] /\ rle [(2, [TNaN; TNum 1 0]); (1, [TNum 0 0])] = [TNaN; TNum 1 0; TNaN; TNum 1 0; TNum 0 0].
+Proof. vm_compute. repeat split. Qed.
